@@ -85,6 +85,12 @@ TrEnd ==
           Reject(l, [cls |-> "fanout", with |-> Ev.outcome, fan |-> Ev.fanout, calls |-> Ev.fanoutSameCalls])
     /\ (Has(Ev, "calls") /\ Ev.outcome \in {"ok", "err"} /\ ~Lifecycle(Ev.calls, Ev.outcome)) =>
           Reject(l, [cls |-> "lifecycle", final |-> Final(Ev.calls), n |-> Len(Ev.calls)])
+    \* an execution that stops with an error in front of a signature opcode which the specification
+    \* executes without error (pushing false, say): "a false result rather than an error" (C06)
+    /\ (Ev.outcome = "err" /\ mode = "run" /\ vm.st = "run" /\ ~CurTok(vm).bad
+          /\ CurTok(vm).op \in {OP_CHECKSIG, OP_CHECKSIGVERIFY, OP_CHECKMULTISIG, OP_CHECKMULTISIGVERIFY}
+          /\ Step(vm, cx, NoOracle).st \in {"run", "fin"}) =>
+          Reject(l, [cls |-> "sig-error", op |-> CurTok(vm).op])
     /\ (~Ev.same \/ (Has(Ev, "nodbgSame") /\ ~Ev.nodbgSame)) => Reject(l, [cls |-> "sideeffect"])
     /\ IF Ev.outcome \notin {"ok", "err"} \/ mode \in {"skip", "idle"} THEN TRUE
        ELSE IF mode = "specerr"
